@@ -53,9 +53,22 @@ def cleanup(d):
     shutil.rmtree(d, ignore_errors=True)
 
 
+class _Dead:
+    """Result of a harness run that had to be killed."""
+    def __init__(self, why):
+        self.returncode = -999
+        self.stdout = ''
+        self.stderr = why
+
+
 def harness(args, timeout=3600, check=True, stdin=None):
-    p = subprocess.run([BIN] + [str(a) for a in args], stdout=subprocess.PIPE, stderr=subprocess.PIPE,
-                       text=True, timeout=timeout, input=stdin)
+    try:
+        p = subprocess.run([BIN] + [str(a) for a in args], stdout=subprocess.PIPE, stderr=subprocess.PIPE,
+                           text=True, timeout=timeout, input=stdin)
+    except subprocess.TimeoutExpired:
+        if check:
+            raise ToolError('harness %s did not finish within %ds' % (args[0], timeout))
+        return _Dead('no termination within %d s' % timeout)
     if check and p.returncode != 0:
         log(p.stderr[-4000:])
         raise ToolError('harness %s failed (%d)' % (args[0], p.returncode))
